@@ -560,6 +560,10 @@ class ViewHist(Hist):
             self._norm_work = any(len(run) > 1 or run[0].value == '' for run in w.text_runs(p))
             if self.virgin_iterators(doc) and (any(len(run) > 1 or run[0].value == '' for run in w.text_runs(p))): raise Excluded('C14-iterator-unstepped-removechild')
             return
+        if kind == 'rep' and c is ref and ref.parent is p and not p.readonly:
+            # replaceChild(x, x) (implementation dependent): Xerces removes x whatever else applies
+            if self.virgin_iterators(dm.doc_of(ref)): raise Excluded('C14-iterator-unstepped-removechild')
+            return
         codes = w._insert_codes(p, c, ref if kind == 'ins' else None, replacing=ref if kind == 'rep' else None)
         if kind == 'rep' and ref.parent is not p: codes.add(dm.NOT_FOUND)
         if codes and not (codes == {dm.HIERARCHY} and w._ws_text_under_document(p, c)): return
